@@ -885,7 +885,7 @@ static void limits_inspect(htp_connp_t *c, hx_obs *o, void *ctx) {
     /* no silent truncation: if the direction did not end in ERROR, the long field is reported whole */
     htp_tx_t *tx = htp_list_get(c->conn->transactions, 0);
     if (!tx) return;
-    int dir = LT.kind >= 3;
+    int dir = LT.kind >= 3 && LT.kind != 6;
     int st = dir ? c->out_status : c->in_status;
     if (st == HTP_STREAM_ERROR) return;
     size_t got = 0; int have = 0;
@@ -893,19 +893,30 @@ static void limits_inspect(htp_connp_t *c, hx_obs *o, void *ctx) {
     if (LT.kind == 1) { htp_header_t *h = htp_table_get_c(tx->request_headers, "x-long"); if (h) { got = bstr_len(h->value); have = 1; } else if (tx->request_progress > HTP_REQUEST_HEADERS) { have = 1; got = 0; } }
     if (LT.kind == 3 && tx->response_message) { got = bstr_len(tx->response_message); have = 1; }
     if (LT.kind == 4 && tx->response_headers) { htp_header_t *h = htp_table_get_c(tx->response_headers, "x-long"); if (h) { got = bstr_len(h->value); have = 1; } else if (tx->response_progress > HTP_RESPONSE_HEADERS) { have = 1; got = 0; } }
+    if (LT.kind >= 6) {
+        /* the line after a complete message is handed out as body of that message (FINALIZE probes): every byte of it, its line feed included */
+        /* (whichever transaction it is attached to: the finished one, or a new one on the response side) */
+        for (int k = 0; k < o->ntx; k++) got += o->tx[k].body[LT.kind == 7].n;
+        have = 1;
+    }
     if (have && (int) got != LT.expect_len) hx_verdict_add("C10", "truncated_field", "%s: field reported with %zu bytes, %d were sent, and the direction did not report ERROR", LT.desc, got, LT.expect_len);
 }
 static long limits_counter;
 static void limits_line_cases(void) {
     static const uint32_t LIM[] = { 8, 24, 64 };
     static hx_buf q, r;
-    for (int li = 0; li < 3; li++) for (int kind = 0; kind < 6; kind++) for (int delta = -3; delta <= 4; delta++) {
+    for (int li = 0; li < 3; li++) for (int kind = 0; kind < 8; kind++) for (int delta = -3; delta <= 4; delta++) {
         uint32_t L = LIM[li]; int flen = (int) L + delta; if (flen < 1) continue;
         /* the long field: flen bytes of 'x' placed in a request line / request header / request chunk-size line /
          * status line / response header / response chunk-size line */
         hb_reset(&q); hb_reset(&r);
         size_t lo = 0, hi = 0; hx_buf *w;
         char fill[128]; memset(fill, 'x', sizeof fill); if (kind == 2 || kind == 5) memset(fill, '0', sizeof fill);
+        if (kind >= 6) {
+            /* a line that follows a complete message and does not start the next one */
+            hb_puts(&q, "GET / HTTP/1.0\r\n\r\n"); hb_puts(&r, "HTTP/1.0 200 OK\r\nContent-Length: 0\r\n\r\n");
+            w = kind == 6 ? &q : &r; lo = w->n; hb_put(w, fill, (size_t) flen); hb_puts(w, "\n"); hi = w->n;
+        } else
         if (kind <= 2) {
             w = &q;
             if (kind == 0) { hb_puts(&q, "GET /"); lo = q.n; hb_put(&q, fill, (size_t) flen - 1); hb_puts(&q, " HTTP/1.1\r\n"); hi = q.n; hb_puts(&q, "Host: h\r\n\r\n"); }
@@ -919,13 +930,13 @@ static void limits_line_cases(void) {
             else { hb_puts(&r, "HTTP/1.1 200 OK\r\nTransfer-Encoding: chunked\r\n\r\n"); lo = r.n; hb_put(&r, fill, (size_t) flen); hb_puts(&r, "3\r\n"); hi = r.n; hb_puts(&r, "abc\r\n0\r\n\r\n"); }
         }
         (void) w;
-        LT.kind = kind; LT.expect_len = kind == 0 ? flen : flen;
-        snprintf(LT.desc, sizeof LT.desc, "field_limit_hard=%u, %d-byte field in %s", L, flen, kind == 0 ? "request line" : kind == 1 ? "request header" : kind == 2 ? "request chunk-size line" : kind == 3 ? "status line" : kind == 4 ? "response header" : "response chunk-size line");
+        LT.kind = kind; LT.expect_len = kind >= 6 ? flen + 1 : flen;
+        snprintf(LT.desc, sizeof LT.desc, "field_limit_hard=%u, %d-byte field in %s", L, flen, kind == 0 ? "request line" : kind == 1 ? "request header" : kind == 2 ? "request chunk-size line" : kind == 3 ? "status line" : kind == 6 ? "line after a complete request" : kind == 7 ? "line after a complete response" : kind == 4 ? "response header" : "response chunk-size line");
         long id = limits_counter++;
         if (id % hx_shard_n != hx_shard_i) continue;
         if (id % 40 == 0) hx_emit_sample(LT.desc);
         hx_script_init(&S); S.cfg.field_limit_hard = L; S.inspect = limits_inspect; S.label = LT.desc;
-        size_t base = kind <= 2 ? 0 : q.n;
+        size_t base = (kind <= 2 || kind == 6) ? 0 : q.n;
         /* every single cut and every pair of cuts inside the long line, plus byte-by-byte delivery */
         for (size_t a = lo; a <= hi; a++) for (size_t b = a; b <= hi; b++) {
             int cuts[2], nc = 0;
